@@ -48,29 +48,34 @@ for w in (4, 8, 2, 1):
        flags=["--no-malloc-may-fail"], gi_flags=["--no-malloc-may-fail"], timeout=900, trusted=PIO_TRUST,
        tier="quick" if w == 4 else "thorough", **{**PIO, "objbits": 11})
 # (1) the odometer
-# per-loop unwinding (the global bound would unwind the odometer's nested loops quadratically): R = max rank
+# (1) the odometer.  NCcoordck and NC_varoffset are replaced inside NCvario by contracts proved here (unrolled rank <= 3).
+CK3 = dict(mode="bounded", defines=["PGIO_VARIO", "C03_W=4"], flags=["--no-malloc-may-fail"], gi_flags=["--no-malloc-may-fail"],
+           trusted=PIO_TRUST, **{**PIO, "objbits": 10})
+ob("NCcoordck_r3", "C03", entry="h_NCcoordck3", enforce="H4_NCcoordck", replace=["hdf_get_vp_aid"], unwind=14, cex_unwind=14,
+   bound="rank 1..3, extents <= 4, coordinates -2..16, numrecs <= 16, at most 3 fill records per call, element size 4", **CK3)
+ob("NC_varoffset_r3", "C03", entry="h_NC_varoffset3", enforce="NC_varoffset", unwind=6, cex_unwind=8,
+   bound="rank 1..3, extents <= 4, record index <= 16, element size 4", **CK3)
+
+
 def va_unwindset(R):
     w = "H4_NCvario_wrapped_for_contract_checking"
-    w = "H4_NCvario"  # no enforced contract: the function keeps its name
-    inner, outer = (4, 2) if R == 2 else (5, 5)  # see the iteration count argument in the unit
-    d = {f"{w}.0": R + 2, f"{w}.1": R + 2, f"{w}.2": R + 2, f"{w}.3": inner + 1, f"{w}.4": outer + 1,
-         "H4_NCcoordck.0": R + 2, "H4_NCcoordck.1": 4, "H4_NCcoordck.2": 2, "NC_varoffset.0": R + 2, "NCvcmaxcontig.0": R + 2}
+    inner, outer = (4, 2) if R == 2 else (5, 5)  # iteration counts of the ripple counter: see the unit
+    d = {f"{w}.0": R + 2, f"{w}.1": R + 2, f"{w}.2": R + 2, f"{w}.3": inner + 1, f"{w}.4": outer + 1, "NCvcmaxcontig.0": R + 2}
     d.update({f"h_NCvario.{i}": 4 for i in range(5)})
     return ",".join(f"{k}:{v}" for k, v in d.items())
 
 
-def VA(R, op, flags, fl_name):
-    return dict(entry="h_NCvario", mode="bounded", replace=["hdf_get_vp_aid", "hdf_xdr_NCvdata"],
+def VA(R):
+    return dict(entry="h_NCvario", enforce="H4_NCvario", mode="bounded",
+                replace=["hdf_xdr_NCvdata", "H4_NCcoordck", "NC_varoffset"],
                 flags=["--no-malloc-may-fail", "--unwindset", va_unwindset(R)], gi_flags=["--no-malloc-may-fail"],
-                unwind=16, cex_unwind=16, defines=["PGIO_VARIO", f"MAXR={R}", "C03_W=4", f"VA_OP={op}", f"VA_FLAGS={flags}"],
-                bound=f"rank 1..{R}, extents <= 4, edges 0..3, start -1..5 (record writes start at most one record beyond the end), "
-                      f"numrecs <= 4, element size 4; fixed-size and record variables; {'write' if op == 0 else 'read'}, file flags {fl_name}",
-                trusted=PIO_TRUST + ["hdf_xdr_NCvdata (run logger: contract preconditions are the checks)"], **{**PIO, "objbits": 11})
+                unwind=16, cex_unwind=16, defines=["PGIO_VARIO", f"MAXR={R}", "C03_W=4"],
+                bound=f"rank 1..{R}, extents <= 4, edges 0..3, start -1..5, numrecs <= 4, element size 4; fixed-size and record "
+                      "variables, read and write, any file flags",
+                trusted=PIO_TRUST + ["hdf_xdr_NCvdata (run logger: contract preconditions are the checks)",
+                                     "H4_NCcoordck, NC_varoffset (replaced by the contracts proved in NCcoordck_r3 / NC_varoffset_r3)"],
+                **{**PIO, "objbits": 10})
 
 
-# XDR_ENCODE == 0, XDR_DECODE == 1; NC_NOFILL == 0x100
-ob("NCvario_r2_write", "C03", timeout=900, **VA(2, 0, "0x100", "NC_NOFILL"))
-ob("NCvario_r2_read", "C03", timeout=900, **VA(2, 1, "0", "0"))
-ob("NCvario_r2_write_fill", "C03", timeout=1500, tier="thorough", **VA(2, 0, "0", "0 (fill mode on)"))
-ob("NCvario_r3_write", "C03", timeout=3000, tier="thorough", **VA(3, 0, "0x100", "NC_NOFILL"))
-ob("NCvario_r3_read", "C03", timeout=3000, tier="thorough", **VA(3, 1, "0", "0"))
+ob("NCvario_r2", "C03", timeout=900, **VA(2))
+ob("NCvario_r3", "C03", timeout=3000, tier="thorough", **VA(3))
